@@ -80,6 +80,9 @@ pub enum BackendKind {
     /// the crate's own path constructors (`cfb::create`, `cfb::open_rw`) over a path where a longer
     /// file with other content already exists
     PathApi(String),
+    /// in memory, but like `PathApi` the object is created, given up (`into_inner`) and opened again:
+    /// the reference `PathApi` is compared with
+    MemReopened,
     Chunky(Chunking),
 }
 
@@ -143,7 +146,7 @@ impl Real {
                     None => if *v == "3" { Version::V3 } else { Version::V4 },
                 };
                 let file = match &self.backend {
-                    BackendKind::Mem => Backend::Mem(SharedFile::new(Vec::new())),
+                    BackendKind::Mem | BackendKind::MemReopened => Backend::Mem(SharedFile::new(Vec::new())),
                     BackendKind::Chunky(mode) => Backend::Chunky { inner: SharedFile::new(Vec::new()), mode: *mode, rng: Rng::new(7), toggle: false },
                     BackendKind::File(path) => {
                         let f = std::fs::OpenOptions::new().read(true).write(true).create(true).truncate(true).open(path).unwrap();
@@ -170,6 +173,12 @@ impl Real {
                     let mut file = file;
                     file.seek(SeekFrom::Start(0)).unwrap();
                     CompoundFile::open(file)
+                } else if matches!(self.backend, BackendKind::MemReopened) && version == Version::V4 {
+                    CompoundFile::create_with_version(version, file).and_then(|c| {
+                        let mut f = c.into_inner();
+                        f.seek(SeekFrom::Start(0)).unwrap();
+                        CompoundFile::open(f)
+                    })
                 } else {
                     CompoundFile::create_with_version(version, file)
                 };
